@@ -262,6 +262,14 @@ class Crazyflie():
         self.state = State.INITIALIZED
         self.link_uri = link_uri
         try:
+            # Add a callback so we can check that any data is coming
+            # back from the copter. It has to be in place before the link
+            # exists: the driver's thread may deliver the first packet at
+            # once, and adding it afterwards would signal the link as
+            # established a second time.
+            self.packet_received.add_callback(
+                self._check_for_initial_packet_cb)
+
             self.link = cflib.crtp.get_link_driver(
                 link_uri, self.link_statistics.radio_link_statistics_callback, self._link_error_cb)
 
@@ -273,10 +281,6 @@ class Crazyflie():
             else:
                 if not self.incoming.is_alive():
                     self.incoming.start()
-                # Add a callback so we can check that any data is coming
-                # back from the copter
-                self.packet_received.add_callback(
-                    self._check_for_initial_packet_cb)
 
                 self._start_connection_setup()
         except Exception as ex:  # pylint: disable=W0703
